@@ -114,7 +114,7 @@ IsEqual(plat, v, e, p) == /\ e.path = p.path
                           /\ e.line = FixLine(plat, p, v)
                           /\ e.text = p.text                  \* strings.Trim(.., "\n") : field nl is ignored
 CanCreate(max, done) == done < max
-CanDelete(plat) == plat = "gitlab"
+CanDelete(plat) == plat \in {"gitlab", "bitbucket"}
 
 \* Environment: what the platform stores for a created comment / returns from List
 Created(plat, strip, v, p) == [path |-> p.path, line |-> FixLine(plat, p, v), text |-> p.text,
@@ -194,6 +194,39 @@ RunFold(c, st, pend, v, ft) ==
    hit |-> (cr.aborted \/ dl.nerrs > 0 \/ ft.op = "summary")]
 
 -----------------------------------------------------------------------------
+(* BitBucket (internal/reporter/bitbucket.go Submit, pull request branch; bitbucket_api.go).                       *)
+(* A different reconciliation: the pending comments are cut to the first maxComments (limitComments, plus one     *)
+(* general notice), THEN every own open comment that equals none of them is deleted (pruneComments), THEN every   *)
+(* pending comment that equals no listed comment is posted (addComments). The budget is per pull request, not per *)
+(* run. Comments sit on the LAST line of the problem; the anchor's line type (ADDED / CONTEXT / REMOVED) is part  *)
+(* of the equality and is folded into the line here: +1000 for CONTEXT, +2000 for REMOVED.                        *)
+BBLine(r) == IF r.anchor = "before" THEN r.last + 2000 ELSE IF r.last \in r.mod THEN r.last ELSE r.last + 1000
+NoticeText(n, max) == [g |-> "too-many", m |-> {}, s |-> n * 100 + max]
+BBMakeComments(R, v) ==
+  LET groups == DedupReports(Reports(R, v)) IN
+  [k \in 1..Len(groups) |-> [path |-> groups[k][1].path, line |-> BBLine(groups[k][1]), text |-> Text(groups[k], v),
+                              anchor |-> groups[k][1].anchor]]
+BBLimit(pend, max, ntext) ==
+  IF Len(pend) <= max THEN pend
+  ELSE SubSeq(pend, 1, max) \o <<[path |-> "", line |-> 0, text |-> ntext, anchor |-> "general"]>>
+BBEqual(e, p) == e.path = p.path /\ e.line = p.line /\ e.text = p.text        \* cur.anchor.isEqual(pend.Anchor) && cur.text == pend.Text
+BBFold(c, st, pend0, ntext) ==
+  LET pend == BBLimit(pend0, c.max, ntext)
+      lp == Listed("gitlab", st)                                              \* getPullRequestComments: own open comments
+      del == {n \in 1..Len(lp) : ~\E k \in 1..Len(pend) : BBEqual(st[lp[n]], pend[k])}
+      add == {k \in 1..Len(pend) : ~\E n \in 1..Len(lp) : BBEqual(st[lp[n]], pend[k])}
+      lpDel == SelectSeq(lp, LAMBDA x : \E n \in del : lp[n] = x)
+      addSeq == SelectSeq([k \in 1..Len(pend) |-> k], LAMBDA k : k \in add)
+      newc == [n \in 1..Len(addSeq) |-> [path |-> pend[addSeq[n]].path, line |-> pend[addSeq[n]].line, text |-> pend[addSeq[n]].text,
+                                         nl |-> IF pend[addSeq[n]].path = "" THEN 0 ELSE 1, mine |-> TRUE]] IN
+  [listed |-> lp, creates |-> newc, deleted |-> {lp[n] : n \in del},
+   calls |-> [n \in 1..Len(lpDel) |-> Call("delete", lpDel[n], 0)] \o [n \in 1..Len(addSeq) |-> Call("create", addSeq[n], 0)],
+   after |-> RemoveAll(st, {lp[n] : n \in del}, Len(st)) \o newc,
+   err |-> FALSE, nerrs |-> 0, hit |-> FALSE, pending |-> pend]
+PendingOf(c, R, v) == IF c.plat = "bitbucket" THEN BBMakeComments(R, v) ELSE MakeComments(R, v)
+FoldOf(c, st, R, v, ft) == IF c.plat = "bitbucket" THEN BBFold(c, st, BBMakeComments(R, v), NoticeText(Len(BBMakeComments(R, v)), c.max)) ELSE RunFold(c, st, MakeComments(R, v), v, ft)
+
+-----------------------------------------------------------------------------
 (* Doc side. An observation of one finished run:                            *)
 (*   plat, max, reports (set of problem ids), var, before, after (sequences *)
 (*   of comments), creates (sequence of comments), deleted (positions of    *)
@@ -215,7 +248,11 @@ DocLine(plat, K, v) ==
       ln == IF m = {} THEN hi ELSE SetMax(m) IN
   IF plat = "github" /\ ln \notin Modified(f, v) /\ Modified(f, v) # {} THEN SetMin(Modified(f, v)) ELSE ln
 \* for a problem on a removed rule the documentation does not say which side/line of the diff carries the comment
-AtItsLine(plat, p, v, c) == c.path = PFile(p) /\ (PAnchor(p) = "before" \/ c.line = DocLine(plat, ClassOf(p), v))
+\* BitBucket comments go on the last line of the problem (modified or not)
+AtItsLine(plat, p, v, c) ==
+  /\ c.path = PFile(p)
+  /\ \/ PAnchor(p) = "before"
+     \/ IF plat = "bitbucket" THEN c.line % 1000 = PLast(p) + DocShift(p, v) ELSE c.line = DocLine(plat, ClassOf(p), v)
 CoversProblem(plat, p, v, c) == AtItsLine(plat, p, v, c) /\ p \in c.text.m
 SameComment(a, b) == a.path = b.path /\ a.line = b.line /\ a.text = b.text
 \* problems of one check on the same lines share a comment
@@ -244,7 +281,8 @@ NoTwin(o) ==
 Corresponds(o, c) == \E p \in o.reports : CoversProblem(o.plat, p, o.var, c)
 StaleGone(o) ==
   \A n \in 1..Len(o.before) :
-     (Clean(o) /\ o.before[n].mine /\ CanDelete(o.plat) /\ ~Corresponds(o, o.before[n])) => n \in o.deleted
+     \* (a comment without a path is BitBucket's notice about skipped comments, not a comment on a problem)
+     (Clean(o) /\ o.before[n].mine /\ o.before[n].path # "" /\ CanDelete(o.plat) /\ ~Corresponds(o, o.before[n])) => n \in o.deleted
 ForeignUntouched(o) == \A n \in 1..Len(o.before) : ~o.before[n].mine => n \notin o.deleted
 \* budget not exhausted by the previous identical run => nothing was waiting => nothing to do now
 Idempotent(o) ==
@@ -258,10 +296,24 @@ Accounting(o) == o.after = RemoveAll(o.before, o.deleted, Len(o.before)) \o o.cr
 \* a failure never goes unnoticed: the run fails, or the errors reach the summary comment
 ErrReported(o) == o.hit => (o.err \/ o.nerrs > 0)
 
+\* BitBucket: "the maximum number of comments pint can create on a single pull request": of K classes at least
+\* min(K, max) are covered, pint never keeps more than max of its comments (plus the notice about skipped ones),
+\* and repeating a run changes nothing
+BBCovered(o) ==
+  LET covered == {K \in Classes(o.reports) : \E p \in ClassMembers(o.reports, K) : \E k \in 1..Len(o.after) : CoversProblem(o.plat, p, o.var, o.after[k])}
+      own == {k \in 1..Len(o.after) : o.after[k].mine /\ o.after[k].path # ""} IN
+  /\ Cardinality(covered) >= (IF Cardinality(Classes(o.reports)) < o.max THEN Cardinality(Classes(o.reports)) ELSE o.max)
+  /\ Cardinality(own) <= o.max
+BBIdempotent(o) == (o.prevSame /\ o.prevCreates >= 0) => (o.creates = <<>> /\ o.deleted = {})
+BBDocFails(o) == {n \in {"Covered", "NoTwin", "StaleGone", "ForeignUntouched", "Idempotent", "Accounting"} :
+   CASE n = "Covered" -> ~BBCovered(o) [] n = "NoTwin" -> ~NoTwin(o) [] n = "StaleGone" -> ~StaleGone(o)
+     [] n = "ForeignUntouched" -> ~ForeignUntouched(o) [] n = "Idempotent" -> ~BBIdempotent(o) [] OTHER -> ~Accounting(o)}
+
 DocFails(o) == {n \in {"Covered", "KeepsCovered", "NoTwin", "StaleGone", "ForeignUntouched", "Idempotent", "Converges", "Accounting", "ErrReported"} :
    CASE n = "Covered" -> ~Covered(o) [] n = "KeepsCovered" -> ~KeepsCovered(o) [] n = "NoTwin" -> ~NoTwin(o) [] n = "StaleGone" -> ~StaleGone(o)
      [] n = "ForeignUntouched" -> ~ForeignUntouched(o) [] n = "Idempotent" -> ~Idempotent(o)
      [] n = "Converges" -> ~Converges(o) [] n = "ErrReported" -> ~ErrReported(o) [] OTHER -> ~Accounting(o)}
+DocFailsAll(o) == IF o.plat = "bitbucket" THEN BBDocFails(o) ELSE DocFails(o)
 
 -----------------------------------------------------------------------------
 (* State machine                                                            *)
@@ -289,6 +341,10 @@ SameResults(a, b) == a.reports = b.reports /\ a.var = b.var
 \* now or stale later), comments nobody will ever match, and comments of other users (identical to one
 \* of ours, or unrelated).
 OwnCands(plat) ==
+  IF plat = "bitbucket"
+  THEN UNION {{[path |-> c.path, line |-> c.line, text |-> c.text, nl |-> 1, mine |-> TRUE] :
+                 c \in RangeSeq(BBMakeComments(R, v))} : <<R, v>> \in (SUBSET (Probs \ {"P7"})) \X Variants}
+  ELSE
   UNION {{[path |-> c.path, line |-> FixLine(plat, c, v), text |-> c.text, nl |-> 1, mine |-> TRUE] :
             c \in RangeSeq(MakeComments(R, v))} : <<R, v>> \in (SUBSET Probs) \X Variants}
 SeedCands(plat) ==
@@ -297,19 +353,24 @@ SeedCands(plat) ==
         [path |-> "F2", line |-> 5, text |-> StaleText, nl |-> 1, mine |-> TRUE],
         [path |-> "F1", line |-> 8, text |-> StaleText, nl |-> 1, mine |-> FALSE]}
   \cup {[c EXCEPT !.mine = FALSE] : c \in {x \in OwnCands(plat) : x.path = "F2"}}
-  \cup {[c EXCEPT !.nl = 2] : c \in {x \in OwnCands(plat) : x.path = "F2"}}
+  \* (BitBucket compares bodies exactly and is assumed to store them as posted: no seeds with an extra newline there)
+  \cup (IF plat = "bitbucket" THEN {} ELSE {[c EXCEPT !.nl = 2] : c \in {x \in OwnCands(plat) : x.path = "F2"}})
 \* a fixed enumeration of the candidates
 RECURSIVE SetToSeqC(_)
 SetToSeqC(S) == IF S = {} THEN <<>> ELSE LET x == CHOOSE y \in S : TRUE IN <<x>> \o SetToSeqC(S \ {x})
 CandGL == SetToSeqC(SeedCands("gitlab"))          \* constant-level: evaluated once
 CandGH == SetToSeqC(SeedCands("github"))
-CandSeq(plat) == IF plat = "gitlab" THEN CandGL ELSE CandGH
+CandBB == SetToSeqC(SeedCands("bitbucket"))
+CandSeq(plat) == IF plat = "gitlab" THEN CandGL ELSE IF plat = "github" THEN CandGH ELSE CandBB
 
 \* cfg.pad: unrelated comments of other users, older than everything else (so a platform that pages its listing
 \* returns them first). They equal no pending comment and pint may not delete them, so they take no part in the
 \* reconciliation; the real reporters have to page through them (GitLab 20, GitHub 30 per page).
 \* cfg.padf: likewise other changed files listed before the rule files in the pull request's file list.
-ProbsOf(c) == IF c.showdup THEN Probs ELSE Probs \ {"P5", "P6"}
+\* BitBucket vocabulary: without the removed-rule problem (bitBucketAPI.makeComments has its own copy of the text code)
+\* and without platform failures (deleteComment only logs them)
+ProbsOf(c) == (IF c.showdup THEN Probs ELSE Probs \ {"P5", "P6"}) \ (IF c.plat = "bitbucket" THEN {"P7"} ELSE {})
+FaultsOf(c) == IF c.plat = "bitbucket" THEN {NoFault} ELSE Faults
 Init == /\ cfg \in [plat : Platforms, max : Budgets, strip : Strips, pad : Pads, padf : Padfs, showdup : Showdups]
         /\ store = <<>> /\ pc = "seed" /\ runs = 0 /\ inp = NoInp
         /\ before = <<>> /\ existing = <<>> /\ pending = <<>>
@@ -389,7 +450,7 @@ Summary ==
   /\ UNCHANGED <<cfg, store, lastSeed, hist>>
 
 Next == \/ pc = "seed" /\ \E k \in 1..Len(CandSeq(cfg.plat)) : Seed(k)
-        \/ \E R \in SUBSET ProbsOf(cfg), v \in Variants, ft \in Faults : StartRun(R, v, ft)
+        \/ \E R \in SUBSET ProbsOf(cfg), v \in Variants, ft \in FaultsOf(cfg) : StartRun(R, v, ft)
         \/ CreateStep \/ DeleteStep \/ Summary
 Spec == Init /\ [][Next]_vars
 
@@ -400,7 +461,7 @@ Spec == Init /\ [][Next]_vars
 RunAtomic(R, v, ft) ==
   /\ pc \in {"seed", "idle"} /\ runs < MaxRuns
   /\ LET in == [reports |-> R, var |-> v, fault |-> ft]
-         f == RunFold(cfg, store, MakeComments(R, v), v, ft) IN
+         f == FoldOf(cfg, store, R, v, ft) IN
      /\ store' = f.after
      /\ prevInp' = in /\ prevCreates' = (IF f.hit THEN 0 - 1 ELSE Len(f.creates))
      /\ streak' = IF f.hit THEN 0 ELSE IF SameResults(prevInp, in) THEN streak + 1 ELSE 1
@@ -409,7 +470,7 @@ RunAtomic(R, v, ft) ==
   /\ UNCHANGED <<cfg, inp, before, existing, pending, i, j, created, newc, deleted, lastSeed>>
 
 MacroNext == \/ pc = "seed" /\ \E k \in 1..Len(CandSeq(cfg.plat)) : Seed(k)
-             \/ \E R \in SUBSET ProbsOf(cfg), v \in Variants, ft \in Faults : RunAtomic(R, v, ft)
+             \/ \E R \in SUBSET ProbsOf(cfg), v \in Variants, ft \in FaultsOf(cfg) : RunAtomic(R, v, ft)
 MacroSpec == Init /\ [][MacroNext]_vars
 \* GEN (simulation): a case is the configuration, the seeded comments and the run inputs; what the runs do
 \* is computed by JUDGE (RunFold) when the recorded behaviour is validated, so it is not computed here.
@@ -426,8 +487,8 @@ GenNext == \/ pc = "seed" /\ \E k \in 1..Len(CandSeq(cfg.plat)) : Seed(k)
            \/ runs < MaxRuns /\ \E R \in SUBSET ProbsOf(cfg), v \in Variants : GenRun(R, v, NoFault)
            \/ /\ runs >= 1 /\ runs < MaxRuns                        \* the same results again (a re-run of the CI job)
               /\ GenRun(LastRun.reports, LastRun.var, NoFault)
-           \/ /\ runs >= 1 /\ runs < MaxRuns /\ Faults # {NoFault}    \* ... during which the platform fails once
-              /\ \E ft \in Faults \ {NoFault} : GenRun(LastRun.reports, LastRun.var, ft)
+           \/ /\ runs >= 1 /\ runs < MaxRuns /\ FaultsOf(cfg) # {NoFault}    \* ... during which the platform fails once
+              /\ \E ft \in FaultsOf(cfg) \ {NoFault} : GenRun(LastRun.reports, LastRun.var, ft)
            \/ /\ pc = "idle" /\ runs = MaxRuns /\ pc' = "done"     \* Finish: a single successor, so one CASE per trace
               /\ UNCHANGED <<cfg, store, runs, inp, before, existing, pending, i, j, created, newc, deleted,
                              prevInp, prevCreates, streak, lastSeed, hist>>
@@ -436,13 +497,13 @@ GenSpec == Init /\ [][GenNext]_vars
 \* observation of the run a RunAtomic step performed
 ObsStep ==
   LET in == prevInp'
-      f == RunFold(cfg, store, MakeComments(in.reports, in.var), in.var, in.fault) IN
+      f == FoldOf(cfg, store, in.reports, in.var, in.fault) IN
   [plat |-> cfg.plat, max |-> cfg.max, reports |-> in.reports, var |-> in.var,
    before |-> store, after |-> store', creates |-> f.creates, deleted |-> f.deleted,
    hit |-> f.hit, err |-> f.err, nerrs |-> f.nerrs,
    prevSame |-> SameResults(prevInp, in), prevCreates |-> prevCreates, streak |-> streak']
 StepOK == (runs' = runs + 1) =>
-  LET bad == DocFails(ObsStep) IN IF bad = {} THEN TRUE ELSE PrintT(<<"LEAD", ToJson(bad)>>) /\ FALSE
+  LET bad == DocFailsAll(ObsStep) IN IF bad = {} THEN TRUE ELSE PrintT(<<"LEAD", ToJson(bad)>>) /\ FALSE
 Prop_C17 == [][StepOK]_vars
 
 -----------------------------------------------------------------------------
